@@ -286,9 +286,11 @@ struct Ad
 
     void reseed(int q)
     {
+#ifndef VF_BLACKBOX
         if constexpr (ck == CK::rr)
             if (q != 255) // 255: keep drawing from the current generator stream (twin of a range)
                 c.m_mt.seed(rng_seeds()[q % RNGQ]);
+#endif
         (void)q;
     }
 
@@ -544,8 +546,12 @@ struct Ad
             int64_t t = tp.time_since_epoch().count();
             if (t > g_now_ns)
                 return "+" + std::to_string(t - g_now_ns);
-            auto it = std::lower_bound(expired.begin(), expired.end(), t);
-            return "x" + std::to_string(it - expired.begin());
+            // Every comparison the code makes with an expired instant has the same outcome for all of
+            // them (they are <= now, now only grows, and new deadlines are >= now); their mutual order
+            // is carried by the position in the ttl structure, which is dumped separately.  Ranks among
+            // expired instants would only distinguish "equal" from "earlier", which no code path can
+            // observe - and would make a state differ from itself after the clock moved.
+            return "x";
         }
     };
 
@@ -575,6 +581,9 @@ struct Ad
     {
         for (int k = 0; k <= MAXK; k++)
             out[k] = -1;
+#ifdef VF_BLACKBOX
+        return;
+#else
         if constexpr (ck == CK::tlru || ck == CK::utlru)
         {
             for (auto& kv : c.m_keyed_elements)
@@ -587,8 +596,20 @@ struct Ad
                 if (kv.first.v >= 0 && kv.first.v <= MAXK)
                     out[kv.first.v] = kv.second.m_ttl_position->m_expire_time.time_since_epoch().count();
         }
+#endif
     }
 
+    // VF_BLACKBOX: fallback build for a tree whose private members no longer match this adapter (a
+    // refactoring): no white-box access at all; the engines then explore without state merging.
+    static constexpr bool whitebox =
+#ifdef VF_BLACKBOX
+        false;
+#else
+        true;
+#endif
+#ifdef VF_BLACKBOX
+    std::string dump() { return "?"; }
+#else
     std::string dump()
     {
         std::ostringstream s;
@@ -800,6 +821,7 @@ struct Ad
         }
         return s.str();
     }
+#endif
 };
 
 } // namespace vf
